@@ -30,7 +30,7 @@ def limit_values(rng):
 
 def C05(tier, rng):
     cs = []
-    cs += sweep_enc_dns_cases()
+    cs += sweep_enc_dns_cases() + overlong_utf8_label_values()
     # messages of exactly 65,533..65,538 octets (two shapes): the largest that fits, and the first ones that do not
     for total in range(65533, 65539):
         k = total - 12 - 1 - 10
@@ -130,6 +130,7 @@ def C06(tier, rng):
         k = rng.choice([20, 50, 100, 200]) if tier == 'quick' else rng.choice([50, 200, 500, 1000])
         names = [rand_name(rng, pool, maxlabels=4) for _ in range(k)]
         cs.append(enc_case(names_msg(names, [rng.choice('qor') for _ in names]), 'long%d' % k))
+    cs += overlong_utf8_label_values()
     return cs
 
 # ---------------------------------------------------------------- C07
@@ -295,9 +296,9 @@ def prefix_histories(maxk=2):
         for k in range(0, maxk + 1):
             for seq in itertools.product(ap_calls, repeat=k):
                 cs.append(Case('api.apitem %s%s' % (init, ''.join(' ' + c for c in seq)), 'apitem-history'))
-    ecs_calls = ['src:0', 'src:1', 'src:24', 'src:32', 'src:33', 'src:64', 'src:128', 'src:129', 'scope:0', 'scope:32', 'scope:33', 'scope:64', 'scope:128', 'scope:129', 'scope:255',
+    ecs_calls = ['src:0', 'src:1', 'src:8', 'src:16', 'src:24', 'src:32', 'src:33', 'src:64', 'src:128', 'src:129', 'scope:0', 'scope:8', 'scope:16', 'scope:32', 'scope:33', 'scope:64', 'scope:128', 'scope:129', 'scope:255',
                  'addr:1/0a000000', 'addr:1/0a000001', 'addr:2/' + '00' * 16, 'addr:2/20010db8' + '00' * 12]
-    for init in ('1/0/0/00000000', '1/24/0/0a000100', '1/24/0/0a010200', '1/32/32/0a000001', '2/32/0/20010db8' + '00' * 12, '2/56/64/20010db8000100' + '00' * 9):
+    for init in ('1/0/0/00000000', '1/24/0/0a000100', '1/24/0/0a010200', '1/24/16/0a010200', '1/16/24/0a010200', '1/1/0/80000000', '1/32/32/0a000001', '2/32/0/20010db8' + '00' * 12, '2/56/64/20010db8000100' + '00' * 9):
         for k in range(0, maxk + 1):
             for seq in itertools.product(ecs_calls, repeat=k):
                 cs.append(Case('api.ecs %s%s' % (init, ''.join(' ' + c for c in seq)), 'ecs-history'))
@@ -423,6 +424,7 @@ def C08(tier, rng):
         cs.append(Case('enc.name %s' % pname((lab, b'x')), 'label%d' % n))
         cs.append(Case('api.label %s' % hx(lab), 'label%d' % n))
         cs.append(enc_case(msg_with([{'ty': 2, 'name': (lab,), 'ttl': 0, 'cls': 1, 'f': [(b'ns', lab)]}]), 'label%d' % n))
+    cs += overlong_utf8_label_values()
     return cs
 
 # ---------------------------------------------------------------- C10
@@ -500,7 +502,7 @@ def C10(tier, rng):
             cs.append(Case('dec.rr %s' % hx(bytes(r.out)), 'standalone-ptr0'))
     cs += standalone_internal_pointer_cases()
     # elements built through setters: a refused setter call must leave the element as it was (it is encoded afterwards)
-    cs += prefix_histories(1) + cookie_histories(1)
+    cs += prefix_histories(1) + cookie_histories(1) + overlong_utf8_label_values()
     return cs
 
 def standalone_internal_pointer_cases():
@@ -598,6 +600,13 @@ def C11(tier, rng):
             rd2 = b'\0\x0c\0\2\0\0' + rd                       # after a complete padding option
             cs.append(Case('dec.rr %s' % hx(b'\0\0\x29\x10\0\0\0\0\0' + len(rd2).to_bytes(2, 'big') + rd2), 'optcode-truncated'))
 
+    # the same code points where they occur INSIDE elements: the CLASS of a record (validated per record by the record
+    # reader, not by `Class::decode`), QTYPE and QCLASS of a question, TYPE of a record: all 65,536 values each
+    for v in range(65536):
+        w = v.to_bytes(2, 'big')
+        cs.append(Case('dec.rr %s' % hx(b'\1x\0\0\2' + w + b'\0\0\0\x3c\0\3\1n\0'), 'rr-class-all'))
+        cs.append(Case('dec.question %s' % hx(b'\1x\0' + w + b'\0\1'), 'q-qtype-all'))
+        cs.append(Case('dec.question %s' % hx(b'\1x\0\0\1' + w), 'q-qclass-all'))
     return cs
 
 # ---------------------------------------------------------------- C12 / C13
@@ -753,4 +762,11 @@ def C13(tier, rng):
     for s in (b'', b'.', b'..', b'a..b', b'.a', b'a.', b'a..', b'\xe2\x84\xaa.example.'):
         cs.append(Case('text.parse %s' % hx(s), 'parse-edge'))
     cs += label_length_octet_cases()
+    cs += overlong_utf8_label_values()
+    # equal names as compression targets exactly at, just below and just above the last pointable offset
+    for off in (0x3FF0, 0x3FFD, 0x3FFE, 0x3FFF, 0x4000, 0x4001, 0x4002, 0x4010):
+        m = high_offset_msg(rng, off)
+        if m: cs.append(Case('enc.dns %s' % pmsg(m), 'eq-target-hioff'))
+        m2 = straddle_msg(off)
+        if m2: cs.append(Case('enc.dns %s' % pmsg(m2), 'eq-target-straddle'))
     return cs
